@@ -6,6 +6,8 @@ order of the calls breaks the corresponding `rfl`/`decide`.
 -/
 import ArvVerif.Gen.FactsC15
 import ArvVerif.Model.C15
+import ArvVerif.Model.C15_Glue
+import ArvVerif.Model.C15_Tick
 namespace ArvVerif.Tie.C15
 open ArvVerif.Facts.C15
 
@@ -257,5 +259,74 @@ theorem workerClose_shape :
 
 /-- The quota back-off is a fixed minute (why quota scenarios get a longer deadline). -/
 theorem quota_ttl : "quotaErrorTTL = time.Minute" ∈ poolTimeConsts := by decide
+
+/-- `probeRunning` classifies the lines as C14's `parseProbe` does (used by `C15.probeOfLines`): the only
+thing ever appended to `running` is a whole single-token line; a `"<uuid> stale"` line sets the stale-run-lock
+flag and nothing else (`C15_resp_dead_process_detected`, `C15_resp_stale_not_adopted`; seeded change C15-g also
+counted it as running). -/
+theorem probeRunning_assigns : probeRunningAssigns =
+    ["ok = true", "staleRunLock := false", "reportsBroken = true", "running = append(running, s)",
+     "staleRunLock = true", "wkr.staleRunLockSince = time.Time{}", "wkr.staleRunLockSince = time.Now()",
+     "reportsBroken = true"] := rfl
+
+theorem probeRunning_skeleton : probeRunningSkeleton =
+    ["if u != \"root\" {", "}", "if err != nil {", "return", "}",
+     "call strings.Split", "for {",
+     "if s == \"\" {", "} else {", "if s == \"broken\" {", "} else {",
+     "call strings.Split => toks", "if len(toks) == 1 {", "call append => running", "} else {",
+     "if toks[1] == \"stale\" {", "}", "}", "}", "}", "}",
+     "defer",
+     "if !staleRunLock {", "} else {", "if wkr.staleRunLockSince.IsZero() {", "} else {",
+     "if dur > wkr.wp.timeoutStaleRunLock {", "}", "}", "}", "return"] := rfl
+
+/-- Every goroutine body releases the latch on every path: `defer sch.uuidUnlock(uuid)` is the statement
+directly after the refused-latch return, before any other return (`C15.runBody`, `C15_resp_latch_released`;
+seeded change C15-h released it by hand after `queue.Lock` and missed the early return). `cancel` and `requeue`
+are pinned by `cancel_requeue_shape`. -/
+theorem lockContainer_skeleton : lockContainerSkeleton =
+    ["call sch.uuidLock", "if !sch.uuidLock(uuid, \"lock\") {", "return", "}",
+     "defer", "call sch.uuidUnlock",
+     "call sch.queue.Get => ctr,ok", "if !ok || ctr.State != arvados.ContainerStateQueued {", "return", "}",
+     "call sch.queue.Lock => err", "if err != nil {", "return", "}",
+     "call sch.queue.Get => ctr,ok", "if !ok {", "} else {",
+     "if ctr.State != arvados.ContainerStateLocked {", "}", "}"] := rfl
+
+theorem kill_skeleton : killSchedSkeleton =
+    ["call sch.uuidLock", "if !sch.uuidLock(uuid, \"kill\") {", "return", "}",
+     "defer", "call sch.uuidUnlock", "call sch.pool.KillContainer", "call sch.pool.ForgetContainer"] := rfl
+
+/-- `uuidUnlock` deletes the entry (C14 `uuidUnlock`). -/
+theorem uuidUnlock_deletes : uuidUnlockCalls = ["delete"] := rfl
+
+/-- `Pool.runProbes` is the loop `for range probeticker.C { … }` over a `time.Ticker` (`C15.Driven` over
+`C15.periodic`): first `shutdownIfIdle` of every worker, then a probe of every worker not shut down; the only
+way out is `wp.stop`. -/
+theorem runProbes_skeleton : runProbesSkeleton =
+    ["if maxPPS < 1 {", "}", "call time.NewTicker => limitticker", "defer",
+     "call time.NewTicker => probeticker", "defer",
+     "for {",
+     "for {", "call wkr.shutdownIfIdle", "if wkr.state == StateShutdown || wkr.shutdownIfIdle() {", "continue", "}", "}",
+     "for {", "if !ok {", "continue", "}", "go", "call wkr.ProbeAndUpdate",
+     "case {", "return", "}", "case {", "}", "}",
+     "}"] := rfl
+
+/-- `Scheduler.run` (`C15.schedRun`, `C15_no_pass_before_recovery`): first queue update (retried until it
+succeeds), the poll goroutine `for range poll.C { queue.Update() }` over a ticker, `fixStaleLocks`, the two
+subscriptions, then for ever `runQueue; sync; select` — the only `return` is the stop case. -/
+theorem schedRun_skeleton : schedRunSkeleton =
+    ["defer", "call sch.queue.Update => err", "for {", "if d < time.Second {", "}", "call sch.queue.Update => err", "}",
+     "call time.NewTicker => poll", "defer",
+     "go", "func {", "for {", "call sch.queue.Update => err", "if err != nil {", "}", "}", "}",
+     "call sch.fixStaleLocks",
+     "call sch.pool.Subscribe => poolNotify", "defer", "call sch.queue.Subscribe => queueNotify", "defer",
+     "for {", "call sch.runQueue", "call sch.sync",
+     "case {", "return", "}", "case {", "}", "case {", "}", "case {", "}", "}"] := rfl
+
+/-- `dispatcher.run` (`C15.dispRun`, `C15_shutdown_order`): the deferred calls are registered in the order
+close(stopped), instanceSet.Stop, pool.Stop, … sched.Stop — so they run scheduler first, `stopped` last. -/
+theorem dispRun_skeleton : dispRunSkeleton =
+    ["defer", "call close", "defer", "call disp.instanceSet.Stop", "defer", "call disp.pool.Stop",
+     "if staleLockTimeout == 0 {", "}", "if pollInterval <= 0 {", "}",
+     "call scheduler.New => sched", "call sched.Start", "defer", "call sched.Stop"] := rfl
 
 end ArvVerif.Tie.C15
